@@ -89,20 +89,40 @@ Proof. vm_compute. repeat split; reflexivity. Qed.
    complete the chunks in the order 1, 0, 3, 2 -- and the 16-byte read over it is exact *)
 Definition ex_wrap_conn : SCP.conn := {| SCP.k_seq := 65534; SCP.k_ntx := 0; SCP.k_now := 0; SCP.k_buf := [] |}.
 Definition ex_wrap_cf : SCP.config := SCP.Cf 2 3 10 [] [].
+(* each datagram names the transmission that caused it (d_src): 1, 0, then 5 and 4 (the retransmissions) *)
 Definition ex_wrap_events : list SCP.event :=
-  [SCP.Ev [SCP.Dg rc_ok 65535 0] 1; SCP.Ev [SCP.Dg rc_ok 65534 0] 2; SCP.Ev [] 13;
-   SCP.Ev [SCP.Dg rc_ok 1 0; SCP.Dg rc_ok 0 0] 14; SCP.Ev [] 30].
+  [SCP.Ev [SCP.Dg rc_ok 65535 1] 1; SCP.Ev [SCP.Dg rc_ok 65534 0] 2; SCP.Ev [] 13;
+   SCP.Ev [SCP.Dg rc_ok 1 5; SCP.Dg rc_ok 0 4] 14; SCP.Ev [] 30].
 
 Lemma ex_wrap_instance :
   (let '(tr, oc, k', _) := SCP.burst ex_wrap_cf (burst_cmds 4) ex_wrap_events ex_wrap_conn in
-   (callback_ids tr, oc, SCP.k_seq k',
+   (callback_ids tr, oc, SCP.k_seq k', own_replies ([] ++ tr) tr,
     flat_map (fun o => match o with SCP.OSend _ c s _ => [(c, s)] | _ => [] end) tr)) =
-  ([1; 0; 3; 2], SCP.Returned, 2, [(0, 65534); (1, 65535); (2, 0); (3, 1); (2, 0); (3, 1)]) /\
-  match sc_read_burst ex_wrap_cf ex_wrap_events ex_wrap_conn (mk_env 4 ex_nbr) ex_M (1, 2) 0 4097 16 with
+  ([1; 0; 3; 2], SCP.Returned, 2, true, [(0, 65534); (1, 65535); (2, 0); (3, 1); (2, 0); (3, 1)]) /\
+  match sc_read_burst ex_wrap_cf ex_wrap_events ex_wrap_conn [] (mk_env 4 ex_nbr) ex_M (1, 2) 0 4097 16 with
   | Ok (tr, out) => Some (map (fun r => match rq_cmd r with CRead a _ _ => a | _ => 0 end) tr, out)
   | _ => None
   end = Some ([4101; 4097; 4109; 4105], mem_range (ex_M (1, 2)) 4097 16).
 Proof. vm_compute. split; reflexivity. Qed.
+
+(* without own replies: the callback of chunk 1 is handed a reply that chunk 0's command caused (what C06's refuted
+   clause allows when a duplicate outlives its sequence number): both chunks have the same size, nothing is raised,
+   and the read returns chunk 0's bytes in chunk 1's place -- the C07 face of C06's finding seq-wrap-stale-duplicate *)
+Lemma ex_other_reply :
+  exists cs hist tr,
+    read_chunks 4096 8 4 = Ok cs /\ own_replies hist tr = false /\ covers cs (map fst (served cs hist tr)) /\
+    match read_run_served (mk_env 4 ex_nbr) ex_M (1, 2) 0 (served cs hist tr) (repeat 0 8) with
+    | Ok (_, out) => Some out
+    | _ => None
+    end = Some (mem_range (ex_M (1, 2)) 4096 4 ++ mem_range (ex_M (1, 2)) 4096 4)%list /\
+    (mem_range (ex_M (1, 2)) 4096 4 ++ mem_range (ex_M (1, 2)) 4096 4)%list <> mem_range (ex_M (1, 2)) 4096 8.
+Proof.
+  eexists. exists [SCP.OSend 0 0 0 0; SCP.OSend 1 0 0 5; SCP.OSend 2 1 1 6],
+                  [SCP.OCallback 0 (SCP.Dg rc_ok 0 0); SCP.OCallback 1 (SCP.Dg rc_ok 0 1)].
+  split; [vm_compute; reflexivity|]. split; [vm_compute; reflexivity|]. split.
+  - vm_compute. split; intros x Hx; cbn in Hx |- *; tauto.
+  - split; [vm_compute; reflexivity | vm_compute; discriminate].
+Qed.
 
 (* a controller re-booted with a struct file in which sv sits elsewhere and two fields have changed places reads
    the field at its NEW address *)
@@ -120,3 +140,11 @@ Lemma ex_reboot_instance :
   | _ => None
   end = Some [sv_struct_base + 112].
 Proof. vm_compute. split; reflexivity. Qed.
+
+(* a write whose chunk commands are executed in reverse order and then all once more (permuted and repeated) *)
+Lemma ex_write_permuted_repeated :
+  match sc_write_order (mk_env 16 ex_nbr) ex_M (1, 2) 0 1001 (pattern_data 1 37) (fun cs => (rev cs ++ cs)%list) with
+  | Ok (tr, M') => Some (List.length tr, mem_range (M' (1, 2)) 1000 39)
+  | _ => None
+  end = Some (6%nat, (ex_M (1, 2) 1000 :: pattern_data 1 37 ++ [ex_M (1, 2) 1038])%list).
+Proof. vm_compute. reflexivity. Qed.
